@@ -247,6 +247,7 @@ def grid_case(col, pp, liquid, v, unit_c, unit_q, scenario):
     col.case()
     col.label('grid')
     sig = f"exact-capacity/{scenario}"
+    not_emptied = None
     try:
         if scenario == 'constructor':
             c = pp.Container('x', cap, [(sub, q)])
@@ -258,7 +259,7 @@ def grid_case(col, pp, liquid, v, unit_c, unit_q, scenario):
             s2, d2 = pp.Container.transfer(src, pp.Container('d', cap), q)
             res = [d2]
             if any(abs(a) > 1e-9 for a in s2.contents.values()):
-                col.report(sig + '/source-not-emptied', {'left': list(s2.contents.values())}, case)
+                not_emptied = list(s2.contents.values())
         elif scenario == 'plate-well':
             plate = pp.Plate('p', cap, rows=1, columns=2)
             src = pp.Container('s', initial_contents=[(sub, q), (sub, q)])
@@ -270,6 +271,8 @@ def grid_case(col, pp, liquid, v, unit_c, unit_q, scenario):
     except Exception as e:  # noqa
         col.report(sig + f"/raised:{type(e).__name__}", {'cap': cap, 'request': q, 'exc': repr(e)[:160]}, case)
         return
+    if not_emptied:
+        col.report(sig + '/source-not-emptied', {'left': not_emptied}, case)
     for r in res:
         if r.volume > r.max_volume * (1 + 2e-12) + 2e-10 or abs(r.volume - r.max_volume) > 1e-6 * r.max_volume:
             col.report(sig + '/not-full', {'vol': r.volume, 'cap': r.max_volume}, case)
@@ -306,7 +309,7 @@ def run(col):
     with col.enumeration():
         grid(col, pp, 60 if col.tier == 'quick' else 500)
     core.run_property(col, lambda: benchmachine.make_machine(col, pp, prof, mon),
-                      budget(60, 1000, col.tier), tag='bench', stateful_step_count=budget(25, 40, col.tier))
+                      budget(40, 1000, col.tier), tag='bench', stateful_step_count=25 if col.tier == 'quick' else 40)
     from engines import programs
     programs.run_c03(col, pp)
 
